@@ -179,10 +179,29 @@ def run(ctx):
               '%d call sites, none on the deny-list' % sites if not denied else '%d denied' % denied,
               trivial=True, config=config)
         ck.extra.setdefault('library_call_sites', {})[config] = sites
+        # ---- c  the descriptor table is process-wide: a closed number must not stay in a context
+        from ..rules import extra
+        nclose = extra.check_fd_release(ck, prog, config, 'C19-c')
+        ck.min_instances('close() of a descriptor field in the library', nclose, 3)
     ck.min_instances('objects with static storage in the library', total_statics, 6)
 
 
 MUTANTS = [
+    {'id': 'm19f', 'desc': 'temp file closed early, field kept (seeded c19r2)', 'file': 'src/lib/io.c',
+     'old': """    if(read_count == -1)
+        return false;
+    return true;""", 'new': """    if(read_count == -1)
+        return false;
+    close(zck->temp_fd);
+    return true;""", 'expect': 'R6.fd-release chunks_from_temp'},
+    {'id': 'n19f', 'desc': 'temp file closed early and the field reset', 'file': 'src/lib/io.c',
+     'old': """    if(read_count == -1)
+        return false;
+    return true;""", 'new': """    if(read_count == -1)
+        return false;
+    close(zck->temp_fd);
+    zck->temp_fd = 0;
+    return true;""", 'expect': None},
     {'id': 'm43', 'desc': 'new file-scope counter updated in dl_write', 'file': 'src/lib/dl/dl.c',
      'old': """        dl->dl_chunk_data += wb;
     }
